@@ -44,7 +44,7 @@ _ALARM = False       # set in worker processes: `tool()` arms a 120 s alarm arou
 
 # =============================================================================== (a) synthetic streams
 def synthetic(ctx: Ctx) -> None:
-    n = ctx.pick(2500, 30000)
+    n = ctx.pick(3000, 30000)
     cases = [gen.gen_stream(ctx.rng, malformed=(i % 6 == 5)) for i in range(n)]
     lines = [json.dumps(["stream"] + evs) for evs, _ in cases]
     model = ctx.lean_driver(DRIVER, lines)
@@ -504,8 +504,8 @@ def classify_delta(probs: list[dict], texts: dict[str, str] | None = None) -> st
 def real_runs(ctx: Ctx) -> None:
     t0 = time.time()
     cases = corpus.corpus_cases(ctx.rng)
-    ncorp = ctx.pick(170, len(cases))
-    ntext = ctx.pick(40, 300)
+    ncorp = ctx.pick(260, len(cases))
+    ntext = ctx.pick(50, 300)
     progs = cases[:ncorp] + corpus.gen_text_programs(ctx.rng, ntext)
     nvar = ctx.pick(4, 6)
     nproc = 6
